@@ -13,7 +13,9 @@ import (
 	"reflect"
 	"strings"
 	"sync"
+	"sync/atomic"
 	"testing"
+	"time"
 
 	"connectrpc.com/conformance/internal/verifkit"
 )
@@ -535,4 +537,127 @@ func vfRunWriter(rep *verifkit.Report, rng *verifkit.Rand, body *vfBody, failAt 
 			rep.Violation("body/writer/trace-trailers", fmt.Sprintf("trace trailers %v", tr.Trailer), w)
 		}
 	}
+}
+
+// vfRaceBody is a goroutine-safe inner body that hands out its chunks with small pauses.
+type vfRaceBody struct {
+	mu     sync.Mutex
+	chunks [][]byte
+	pause  time.Duration
+	closed bool
+}
+
+func (b *vfRaceBody) Read(p []byte) (int, error) {
+	if b.pause > 0 {
+		time.Sleep(b.pause)
+	}
+	b.mu.Lock()
+	defer b.mu.Unlock()
+	if b.closed {
+		return 0, errors.New("read on closed body")
+	}
+	if len(b.chunks) == 0 {
+		return 0, io.EOF
+	}
+	n := copy(p, b.chunks[0])
+	b.chunks[0] = b.chunks[0][n:]
+	if len(b.chunks[0]) == 0 {
+		b.chunks = b.chunks[1:]
+	}
+	return n, nil
+}
+
+func (b *vfRaceBody) Close() error {
+	b.mu.Lock()
+	b.closed = true
+	b.mu.Unlock()
+	return nil
+}
+
+// TestVerifC14CloseRace: a body is read by one goroutine and closed by another
+// (what HTTP transports do); the end of the body must be recorded once.
+func TestVerifC14CloseRace(t *testing.T) {
+	rep := verifkit.Begin("C14", "close-race", "a traced request or response body (2 envelopes in 1-4 chunks, 0-60 us between chunks) is read to its end by one goroutine while a second goroutine calls Close 0-150 us after the start; oracle: exactly one body-end event in the trace, the completion callback runs exactly once, data events are a prefix of the model's; distinct = (side, chunking, which of Read-EOF / Close finished the body)")
+	defer rep.Write()
+	n := verifkit.Scale(3000, 60000)
+	stream := append(vfEnvelopeC14(0, []byte("first")), vfEnvelopeC14(0, []byte("second message"))...)
+	for i := 0; i < n; i++ {
+		rng := verifkit.Stream("c14closerace", i)
+		isRequest := rng.Bool()
+		var chunks [][]byte
+		rest := stream
+		for k := 1 + rng.Intn(4); k > 1 && len(rest) > 1; k-- {
+			c := 1 + rng.Intn(len(rest)-1)
+			chunks = append(chunks, append([]byte(nil), rest[:c]...))
+			rest = rest[c:]
+		}
+		chunks = append(chunks, append([]byte(nil), rest...))
+		inner := &vfRaceBody{chunks: chunks, pause: time.Duration(rng.Intn(60)) * time.Microsecond}
+		closeAfter := time.Duration(rng.Intn(150)) * time.Microsecond
+		coll := &vfCollector{}
+		bld := vfNewBuilder(coll, false)
+		var done atomic.Int32
+		hdr := http.Header{"Content-Type": {"application/connect+proto"}}
+		rd := newReader(hdr, inner, isRequest, bld, func() { done.Add(1) })
+		var wg sync.WaitGroup
+		wg.Add(2)
+		go func() {
+			defer wg.Done()
+			buf := make([]byte, 64)
+			for {
+				if _, err := rd.Read(buf); err != nil {
+					return
+				}
+			}
+		}()
+		go func() {
+			defer wg.Done()
+			time.Sleep(closeAfter)
+			_ = rd.Close()
+		}()
+		wg.Wait()
+		bld.build()
+		rep.Eval(1)
+		w := map[string]any{"request_side": isRequest, "chunks": len(chunks), "pause_us": inner.pause.Microseconds(), "close_after_us": closeAfter.Microseconds()}
+		traces := coll.Traces()
+		if len(traces) != 1 {
+			rep.Violation("body/close-race/trace-count", fmt.Sprintf("%d traces completed, want 1", len(traces)), w)
+			continue
+		}
+		ends, clean := 0, false
+		for _, e := range traces[0].Events {
+			switch ev := e.(type) {
+			case *RequestBodyEnd:
+				ends++
+				clean = ev.Err == nil
+			case *ResponseBodyEnd:
+				ends++
+				clean = ev.Err == nil
+			}
+		}
+		rep.DistinctKey(isRequest, len(chunks), clean)
+		if clean {
+			rep.Count("finished_by_read", 1)
+		} else {
+			rep.Count("finished_by_close", 1)
+		}
+		if ends != 1 {
+			w["events"] = vfSig(traces[0].Events, isRequest)
+			rep.Violation(fmt.Sprintf("body/close-race/body-end-count/%d", ends), fmt.Sprintf("the body's end was recorded %d times", ends), w)
+		}
+		if d := done.Load(); d != 1 {
+			rep.Violation(fmt.Sprintf("body/close-race/done-callback-count/%d", d), fmt.Sprintf("the reader's completion callback ran %d times", d), w)
+		}
+	}
+	rep.Sample(map[string]any{"side": "response", "chunks": 3, "close_after_us": 40, "expect": "one ResponseBodyEnd, one completion callback"})
+	rep.RequireMin("finished_by_read", 20)
+	rep.RequireMin("finished_by_close", 20)
+}
+
+func vfEnvelopeC14(flags byte, p []byte) []byte {
+	b := make([]byte, 5+len(p))
+	b[0] = flags
+	b[1], b[2], b[3], b[4] = byte(len(p)>>24), byte(len(p)>>16), byte(len(p)>>8), byte(len(p))
+	copy(b[5:], p)
+	return b
 }
